@@ -150,11 +150,19 @@ def _app(iface, app):
     key = (iface, app)
     if key not in _APPS:
         mod = wsgi_static if iface == "wsgi" else asgi_static
-        _APPS[key] = (mod.Files if app == "files" else mod.Pages)(_DIR)
+        base, _, opt = app.partition("+")
+        kw = {"": {}, "nc": {"cacheability": "no-cache"}, "ns": {"cacheability": "no-store"},
+              "pr": {"cacheability": "private", "max_age": 0}}[opt]
+        _APPS[key] = (mod.Files if base == "files" else mod.Pages)(_DIR, **kw)
     return _APPS[key]
 
 
+# app token = files | pages | pagesx, optionally + a constructor option set (nc / ns / pr: the caching directives the
+# application asked for must not change WHEN a copy revalidates)
 _PATH = {"files": "/index.html", "pages": "/", "pagesx": "/index"}
+for _b in ("files", "pages", "pagesx"):
+    for _o in ("nc", "ns", "pr"):
+        _PATH["%s+%s" % (_b, _o)] = _PATH[_b]
 _LOOP = None
 
 
@@ -246,6 +254,25 @@ def _opaque(etag_header):
 
 async def _run_hist(line):
     iface, app_name, tps, size, mtime, ctime, ops = parse_hist(line)
+    app_name, _, tz = app_name.partition("@")
+    if tz:
+        # the process time zone of the server: validators are GMT dates and must not depend on it
+        import time as _time
+        saved = os.environ.get("TZ")
+        os.environ["TZ"] = tz
+        _time.tzset()
+        try:
+            return await _run_hist_tz(line, iface, app_name, tps, size, mtime, ctime, ops)
+        finally:
+            if saved is None:
+                os.environ.pop("TZ", None)
+            else:
+                os.environ["TZ"] = saved
+            _time.tzset()
+    return await _run_hist_tz(line, iface, app_name, tps, size, mtime, ctime, ops)
+
+
+async def _run_hist_tz(line, iface, app_name, tps, size, mtime, ctime, ops):
     app, path = _app(iface, app_name), _PATH[app_name]
     version = 0
     bodies = {}
@@ -869,6 +896,20 @@ def cases(rng, tier):
     # --- random long histories, every interface x app
     n_random = 400 if not thorough else 1500
     variants = [(i, a) for i in ("wsgi", "asgi") for a in ("files", "pages", "pagesx")]
+    # ... and under process time zones west and east of UTC (with and without DST)
+    for idx, abstract in enumerate(exhaustive(3, core, False, allmods)):
+        tps, step = TICKS[idx % 3]
+        ops = concretise(abstract, tps, step, BASE)
+        for tz in ("EST5EDT", "Asia/Kolkata", "America/St_Johns", "Pacific/Kiritimati"):
+            iface = ("wsgi", "asgi")[idx % 2]
+            yield hist(iface, ("files", "pages")[(idx // 2) % 2] + "@" + tz, tps, 20, BASE * tps, BASE * tps, ops)
+    # the same short histories under every constructor option set
+    for idx, abstract in enumerate(exhaustive(3, core, False, allmods)):
+        tps, step = TICKS[idx % 3]
+        ops = concretise(abstract, tps, step, BASE)
+        for opt in ("nc", "ns", "pr"):
+            for iface in ("wsgi", "asgi"):
+                yield hist(iface, ("files", "pages")[idx % 2] + "+" + opt, tps, 20, BASE * tps, BASE * tps, ops)
     for i in range(n_random):
         tps, size0, m0, c0, ops = random_hist(rng, 30)
         for iface, app in ([variants[i % 6], variants[(i + 3) % 6]] if not thorough else variants):
